@@ -54,9 +54,15 @@ class Injector:
         self.extra_files = tuple(extra_files)
         self.only_extra = only_extra
         self._pending = None        # site of an interrupt that has arrived and is not delivered yet
+        self._jump_code = None
         self.deliveries = {}
 
     def _cb(self, code, line):
+        if self._jump_code is not None:
+            # the line event that follows a backward jump (loop header): where CPython's check at the jump puts it
+            jc, self._jump_code = self._jump_code, None
+            if jc is code and self._pending is not None:
+                return self._deliver(code)
         fn = code.co_filename
         if not fn.startswith(self.pkg_dir):
             if not (self.extra_files and fn.endswith(self.extra_files)):
@@ -126,8 +132,15 @@ class Injector:
         fn = code.co_filename
         if fn.startswith(_HARNESS_DIR):
             return None         # the harness's wrappers are transparent: the program under test has no such frames
-        if code.co_name == '__del__' or (code.co_name in ('_run_finalizers', '__call__') and 'multiprocessing/util.py' in fn):
-            return None         # CPython ignores exceptions (also a real KeyboardInterrupt) raised inside finalizers
+        f = sys._getframe(1)
+        for _ in range(12):     # CPython ignores exceptions (also a real KeyboardInterrupt) raised inside finalizers
+            if f is None:       # and in anything they call (Connection.__del__ -> _close): not a delivery point
+                break
+            c = f.f_code
+            if c.co_name == '__del__' or (c.co_name in ('_run_finalizers', '__call__')
+                                          and 'multiprocessing/util.py' in c.co_filename):
+                return None
+            f = f.f_back
         self._pending = None
         self._delivery_events(False)
         where = (fn[len(self.pkg_dir):] if fn.startswith(self.pkg_dir) else 'py:' + os.path.basename(fn)) + ':' + code.co_name
@@ -143,8 +156,11 @@ class Injector:
             return self._deliver(code)
 
     def _on_jump(self, code, offset, dest):
-        if self._pending is not None and dest < offset:
-            return self._deliver(code)
+        # CPython 3.12.1: an exception raised by a JUMP callback escapes the try block that encloses the loop
+        # (the interpreter resumes its unwinding from the jump's destination), so the interrupt is raised by the
+        # LINE event of the loop header that follows the backward jump instead (same try nesting as the loop body).
+        if self._pending is not None and dest < offset and threading.get_ident() == self.tid and os.getpid() == self.pid:
+            self._jump_code = code
 
     def _on_c_return(self, code, offset, func, arg0):
         if self._pending is not None:
@@ -186,6 +202,7 @@ class Injector:
         global _current
         self.armed = False
         self._pending = None
+        self._jump_code = None
         mon = sys.monitoring
         try:
             mon.set_events(TOOL_ID, 0)
